@@ -23,7 +23,8 @@ SERVICE_RND = T(
 SERVICE_GEN = T([dict(cfg="GEN_Service.cfg", num=10, depth=20, seeds=8)],
                 [dict(cfg="GEN_Service.cfg", num=50, depth=26, seeds=14)])
 SERVICE_SCN = [dict(file="scenarios/service_F4.ndjson", cfg=SERVICE_SCN_CFG),
-               dict(file="scenarios/service_F21.ndjson", cfg=SERVICE_SCN_CFG)]
+               dict(file="scenarios/service_F21.ndjson", cfg=SERVICE_SCN_CFG),
+               dict(file="scenarios/service_F20.ndjson", cfg=SERVICE_SCN_CFG)]
 SERVICE_MC = T([dict(cfg="MC_Service.cfg", timeout=1500)], [dict(cfg="MC_Service_big.cfg", timeout=3400)])
 
 _ASSUME = ["TLC 1.8, SANY, CommunityModules Json", "Go toolchain, cosmos-sdk x/bank",
@@ -58,8 +59,8 @@ TEXT = {
              "own step function (drift).",
         note="Trusted: TLC/SANY/CommunityModules Json, Go toolchain, cosmos-sdk bank, the harness projection. "
              "A single denom; discounts restricted to n/4 and tax/slash denominators dividing 10^18 so that the "
-             "code's 18-decimal arithmetic is exact. Findings F4 (undiscounted charge) is recognised by the "
-             "discriminator why=f4 (the _ModF4 clause variants hold)."),
+             "code's 18-decimal arithmetic is exact. Finding F4 (undiscounted charge) is recognised by the "
+             "discriminator why.f4 (the _ModF4 clause variants hold)."),
     "C08": dict(
         design="DESIGN.md 8 (C08), 3",
         text="Same specification and traces as C07; clauses: exactly one outcome per request (ghost counters of "
@@ -69,5 +70,5 @@ TEXT = {
              "contexts are created and driven by keeper calls executed inside carrier transactions) and the "
              "insufficient-funds pause.",
         note="As C07. Finding F21 (batches beyond the repeated total after pause/start) is recognised by the "
-             "discriminator why=f21."),
+             "discriminator why.f21, finding F20 (new-batch entry left behind when no exchange rate exists) by why.f20."),
 }
